@@ -59,6 +59,7 @@ type FnCtx struct {
 	readonlyExt   map[string]bool
 	counterWrites map[string]string // counter ghost map -> who writes it (callee contract / ghost assignment)
 	guardOrd      map[string]map[ssa.Instruction]int
+	acquired      []acquiredMutex // mutexes acquired by the function under verification (blockingCheck)
 	unlockSnap    *State
 	lockSnap      *State // state right after the most recent lock acquisition (at_lock)
 	preEnv        *Env   // contract environment at function entry (replay)
